@@ -8,7 +8,7 @@ sub-object visits, stores and cursor flow are compared with the oracle of C11 6.
 from ..interp import Interp, Obj, Sym, Term, Lin, View, Cell, is_opaque, vkey, _Ref, int_type, FieldPlace
 from ..chibi import Catalogue, type_cell, cat_of, INT_CATS
 from ..build import AnalysisBroken
-from ..lib_c05 import (TInterp, ctype_bits, settle, lin_eq, lin_diff, field, is_null, strip_cast, show,
+from ..lib_c05 import (TInterp, ctype_bits, settle, lin_eq, lin_diff, lsum, lscale, field, is_null, strip_cast, show,
                        children_hook, child_index)
 
 U = 'parse.c'
@@ -125,7 +125,7 @@ def visits(be, it, ctx):
 def pos_ok(be, it, ctx, v, idx=None, member=None, extra_off=0):
     """does the visit designate the sub-object (array element idx | member) of the current object?"""
     if be.static:
-        want = Lin.of(ctx.p_off)
+        want = ctx.p_off
         if idx is not None:
             base = field(ctx.root_ty, 'base')
             bs = field(base, 'size') if isinstance(base, Obj) else None
@@ -133,14 +133,12 @@ def pos_ok(be, it, ctx, v, idx=None, member=None, extra_off=0):
                 return False, 'element size ty->base->size is never read'
             if not isinstance(idx, int):
                 return False, 'non-concrete index'
-            want = want.add(Lin.of(bs).scale(idx)) if idx else want
-            if isinstance(want, int):
-                want = Lin.of(want)
+            want = lsum(want, lscale(bs, idx))
         if member is not None:
             mo = member.fields.get('offset')
             if mo is None:
                 return False, 'the member offset is not added: the member is written at the offset of the enclosing object'
-            want = Lin.of(want).add(Lin.of(mo))
+            want = lsum(want, mo)
         if not lin_eq(v['off'], want):
             return False, 'byte offset is %s, expected %s' % (show(v['off']), show(want))
         if not same(it, v['buf'], ctx.p_buf):
@@ -426,7 +424,7 @@ def r054_path(be, it, ctx, mems, rep):
         if 'offset' not in m.fields:
             mine = []
         else:
-            addr = Lin.of(ctx.p_buf).add(Lin.of(ctx.p_off)).add(Lin.of(m.fields['offset']))
+            addr = lsum(ctx.p_buf, ctx.p_off, m.fields['offset'])
             mine = [s for s in stores if isinstance(s[1], Term) and s[1].op == 'mem' and lin_eq(s[1].args[0], addr)]
         if d.endswith('no-initializer'):
             rep.ob('R05.4', '%s:write_gvar_data:bit-field-without-initializer-untouched' % U, not mine,
@@ -519,7 +517,7 @@ def r052_scalars(P, u, E, cat, rep):
                 s = stores[0]
                 addr, ct = s[1].args
                 val, cast_t = strip_cast(s[2])
-                if not lin_eq(addr, Lin.of(ctx.p_buf).add(Lin.of(ctx.p_off))):
+                if not lin_eq(addr, lsum(ctx.p_buf, ctx.p_off)):
                     ok = False; construct = 'store-address'; msg = 'the value of a `%s` is stored at %s, not at buf + offset' % (name, show(addr))
                 elif ctype_bits(ct) != 8 * size:
                     ok = False; construct = 'store-width'
